@@ -457,4 +457,5 @@ RULES = [
 	('07.z', 'named protocol / policy constants in this property\'s files have their reviewed values (rules/provenance.py)', lambda F: provenance.consts_for_property(F, 'C07', '07.z')),
 	('07.l', 'abandoning the claims of a commitment that is not (or no longer) confirmed also purges the still time-locked ones', r07l),
 	('07.s', 'no reviewed function gained a short-circuiting iterator adaptor (find / find_map / take / position ...: an every-element walk that stops at the first match; rules/provenance.py)', lambda F: provenance.sc_for_property(F, 'C07', '07.s')),
+	('07.y', 'no reviewed function gained a swallowed error (the Result of a fallible in-crate call dropped; rules/provenance.py)', lambda F: provenance.dr_for_property(F, 'C07', '07.y')),
 ]
